@@ -118,10 +118,17 @@ def h12_consume_broker(S, backend="redis"):
     S.tag("backend", backend)
     prio = [0, 5, 9][S.pick("priority", 3)]
     S.tag("priority", prio)
+    # Redis only: the message may sit in the delayed set with a due time (whole-second scores on the server)
+    delayed = backend == "redis" and S.flag("delayed")
+    due = S.int("due", Y2000, Y2100) if delayed else None
+    if delayed:
+        S.assume(due >= ts)
+        S.tag("origin", "delayed")
 
     async def main(loop):
         key = RoutingKey(topic="job", queue="default", id_="m1", priority=prio)
-        params = P.Parameters(timestamp=S.datetime_us(ts), ttl=S.timedelta_us(ttl) if has_ttl else None)
+        params = P.Parameters(timestamp=S.datetime_us(ts), ttl=S.timedelta_us(ttl) if has_ttl else None,
+                              delay=P.DelayProperties(next_execution_time=S.datetime_us(due)) if delayed else P.DelayProperties())
         if backend == "redis":
             from fakes import redis as fr
             srv = fr.FakeServer(clock=lambda: clock.time())
@@ -158,6 +165,11 @@ def h12_consume_broker(S, backend="redis"):
 
     run_async(main, clock=clock)
     names = out["places"].get("m1", [])
+    if delayed and out["got"] is None and names == ["delayed"]:
+        # withheld because it is not due yet on the server's whole-second clock - not because of its ttl
+        S.cover("not-due")
+        S.check("still-delayed-only-when-not-due", now < due + SEC)
+        return
     if out["got"] is not None:
         S.cover("handed-over")
         S.check("never-handed-over-after-expiry", (not has_ttl) or neg(now > ts + ttl))
@@ -194,9 +206,10 @@ HARNESSES = [
 ]
 HARNESSES += [
     Harness(name="H12-consume-redis", scenario=_cb("redis"),
-            bounds={"timestamp": "2000..2050", "ttl": "None or [0, 100 y] (Parameters built directly; Job itself refuses ttl < 1 s)", "delivery instant": "any µs >= timestamp up to 2100", "priority": "LOW / MEDIUM / HIGH"},
+            bounds={"timestamp": "2000..2050", "ttl": "None or [0, 100 y] (Parameters built directly; Job itself refuses ttl < 1 s)", "delivery instant": "any µs >= timestamp up to 2100", "priority": "LOW / MEDIUM / HIGH",
+                    "origin": "normal list, or the delayed set with any due time >= timestamp (whole-second scores)"},
             functions=["connections/redis/consumer.py:_RedisConsumer.consume_or_none", "connections/redis/message_broker.py:RedisMessageBroker.nack"],
-            covers=["handed-over", "withheld"], stubs=["fake Redis server; parameters cross the JSON text through sentinels"]),
+            covers=["handed-over", "withheld", "not-due"], stubs=["fake Redis server; parameters cross the JSON text through sentinels"]),
     Harness(name="H12-consume-rabbit", scenario=_cb("rabbit"),
             bounds={"as H12-consume-redis": "through _RabbitConsumer.on_new_message on the fake AMQP channel"},
             functions=["connections/rabbitmq/consumer.py:_RabbitConsumer.on_new_message"],
